@@ -309,6 +309,7 @@ def run(prog, rep, tier, repo):
         if f is None:
             continue
         for v, bb, gs in _sites(f):
+            v = prog.inline(v, depth=2)          # a reduction kept in a straight-line helper (`reflected_gamma(z)`) is read through
             if not any(tag(q) == 'call' and q[1] in truth for q in subterms(v)):
                 continue
             nself += 1
@@ -337,6 +338,8 @@ def run(prog, rep, tier, repo):
                 rep.ok('self-call-identity', key, '%s agrees with the true function at %d witnesses of its branch' % (show(v)[:60], used))
             else:
                 rep.undecided('self-call-identity', key, 'no witness satisfies the conditions of the branch %s' % show(v)[:60], site_of(f.body), proof=False)
+    if nself == 0:
+        rep.undecided('self-call-identity', 'self-call-identity:none', 'no branch of gamma / ln_gamma that calls the function itself was found', proof=False)
     rep.floor('self-call-identity', 1, 'reflection branch of gamma')
 
     # ---- loop-free branches against the stated accuracy.  A return site whose expression is a closed form over the argument (no loop-carried
@@ -366,6 +369,7 @@ def run(prog, rep, tier, repo):
             continue
         rep.touch(fk)
         for si, (v, bb, gs) in enumerate(_sites(f)):
+            v = prog.inline(v, depth=2)
             key = 'branch-accuracy:%s:site%d' % (short(fk), si)
             worst, used, uneval = None, 0, None
             for zv in zs:
@@ -393,7 +397,7 @@ def run(prog, rep, tier, repo):
             else:
                 rep.undecided('branch-accuracy', key, 'branch %s not evaluated (%s): its accuracy is not decided' % (show(v)[:50], uneval or 'no witness meets its conditions'),
                               site_of(f.body), proof=False)
-    rep.floor('branch-accuracy', 6, 'return sites of gamma, digamma, erf')
+    rep.floor('branch-accuracy', 3, 'at least one return site each of gamma, digamma, erf')
 
     key = 'lanczos-form'
     if 'gamma' not in forms:
